@@ -35,6 +35,7 @@ type Env struct {
 	famOld func(fam string) string
 	err    *error
 	fnName string
+	onHeap func(term string) // called for every heap bundle a clause mentions
 }
 
 func (e *Env) fail(format string, a ...interface{}) TTerm {
@@ -118,6 +119,13 @@ func (e *Env) Tr(x *Expr) TTerm {
 			return TTerm{S: x.Name, Sort: "Int"}
 		case "wm0":
 			return TTerm{S: e.wm0, Sort: "Int"}
+		case "heap":
+			v, d, c := e.mapFams()
+			t := "(mkheap " + e.seq("Val") + " " + v + " " + d + " " + c + ")"
+			if e.onHeap != nil {
+				e.onHeap(t)
+			}
+			return TTerm{S: t, Sort: "Heap"}
 		}
 		if g := e.g.Spec.GhostIdx[x.Name]; g != nil && len(g.Params) == 0 {
 			return TTerm{S: g.Name, Sort: sortFromName(g.Sort)}
@@ -534,7 +542,7 @@ func (e *Env) call(x *Expr) TTerm {
 		return un("iref", "Int")
 	case "typeid":
 		if len(x.Args) == 1 && x.Args[0].Op == "str" {
-			id, ok := e.g.typeIDs[x.Args[0].Name]
+			id, ok := e.g.typeIDByName(x.Args[0].Name)
 			if !ok {
 				return e.fail("typeid: unknown type %q", x.Args[0].Name)
 			}
@@ -544,7 +552,7 @@ func (e *Env) call(x *Expr) TTerm {
 	case "isType":
 		// isType(iface, "pkg.Type") with pointer-ness given explicitly in the string
 		if len(x.Args) == 2 && x.Args[1].Op == "str" {
-			id, ok := e.g.typeIDs[x.Args[1].Name]
+			id, ok := e.g.typeIDByName(x.Args[1].Name)
 			if !ok {
 				return e.fail("isType: unknown type %q", x.Args[1].Name)
 			}
@@ -556,11 +564,19 @@ func (e *Env) call(x *Expr) TTerm {
 		return e.fail("isType needs (value, \"type\")")
 	case "global":
 		if len(x.Args) == 1 && x.Args[0].Op == "str" {
-			n := "g_" + smtIdent(x.Args[0].Name)
-			if s, ok := e.g.globals[n]; ok {
-				return TTerm{S: n, Sort: s}
+			q := x.Args[0].Name
+			if !strings.Contains(q, "/") {
+				// short form pkg.Name
+				for _, p := range e.g.Pkgs {
+					if strings.HasPrefix(q, p.Pkg.Name()+".") {
+						q = p.Pkg.Path() + "." + q[len(p.Pkg.Name())+1:]
+						break
+					}
+				}
 			}
-			return e.fail("unknown global %q", x.Args[0].Name)
+			n := "g_" + smtIdent(q)
+			e.g.Global(n, "Iface", true)
+			return TTerm{S: n, Sort: "Iface"}
 		}
 	case "deref":
 		// deref(p, "pkg.Struct", "field")
@@ -604,6 +620,30 @@ func (e *Env) call(x *Expr) TTerm {
 		return TTerm{S: "(" + al[0] + " " + strings.Join(as, " ") + ")", Sort: al[1]}
 	}
 	switch x.Name {
+	case "at":
+		if need(3) {
+			return TTerm{S: fmt.Sprintf("(select (select (hq %s) (sref %s)) (+ (soff %s) %s))", a[0].S, a[1].S, a[1].S, a[2].S), Sort: "Val"}
+		}
+	case "mhas":
+		if need(3) {
+			return TTerm{S: fmt.Sprintf("(select (select (hd %s) %s) (skey %s))", a[0].S, a[1].S, a[2].S), Sort: "Bool"}
+		}
+	case "mget":
+		if need(3) {
+			return TTerm{S: fmt.Sprintf("(select (select (hm %s) %s) (skey %s))", a[0].S, a[1].S, a[2].S), Sort: "Val"}
+		}
+	case "mhasKey":
+		if need(3) {
+			return TTerm{S: fmt.Sprintf("(select (select (hd %s) %s) %s)", a[0].S, a[1].S, a[2].S), Sort: "Bool"}
+		}
+	case "mgetKey":
+		if need(3) {
+			return TTerm{S: fmt.Sprintf("(select (select (hm %s) %s) %s)", a[0].S, a[1].S, a[2].S), Sort: "Val"}
+		}
+	case "mlen":
+		if need(2) {
+			return TTerm{S: fmt.Sprintf("(ite (= %s 0) 0 (select (hc %s) %s))", a[1].S, a[0].S, a[1].S), Sort: "Int"}
+		}
 	case "bytesSrc":
 		if need(1) {
 			e.g.Family("BY_src", "(Array Int Str)")
@@ -669,6 +709,22 @@ var rawFuncs = map[string]string{
 	"wrap64": "Int", "tdiv": "Int", "trem": "Int", "inint": "Bool",
 	"dec.isnan": "Bool", "dec.isinf": "Bool", "dec.iszero": "Bool", "dec.ofint": "Dec",
 	"val.type": "Int", "val.wf": "Bool",
+}
+
+// typeIDByName resolves "*pkg/path.Type" or "pkg/path.Type" (or a registered basic type name) to its dynamic type id.
+func (g *Gen) typeIDByName(q string) (int, bool) {
+	if id, ok := g.typeIDs[q]; ok {
+		return id, true
+	}
+	ptr := strings.HasPrefix(q, "*")
+	t := g.lookupNamed(strings.TrimPrefix(q, "*"))
+	if t == nil {
+		return 0, false
+	}
+	if ptr {
+		t = types.NewPointer(t)
+	}
+	return g.TypeID(t), true
 }
 
 func (g *Gen) lookupNamed(q string) types.Type {
@@ -737,6 +793,9 @@ func (g *Gen) EmitGhosts(b *strings.Builder) error {
 		}
 	}
 	for _, ax := range g.Spec.Axioms {
+		if heapVar(ax.E) != "" {
+			continue // heap-schematic: instantiated per heap term inside each function (InstHeapAxioms)
+		}
 		t := env.Tr(ax.E)
 		if err != nil {
 			return fmt.Errorf("axiom %s: %v", ax.Pos, err)
@@ -759,4 +818,46 @@ func exprMentions(e *Expr, name string) bool {
 		}
 	}
 	return false
+}
+
+// heapVar returns the name of a Heap-sorted variable bound by the outermost quantifier, or "".
+func heapVar(e *Expr) string {
+	if e.Op != "forall" {
+		return ""
+	}
+	for _, b := range e.Bound {
+		if b[1] == "Heap" {
+			return b[0]
+		}
+	}
+	return ""
+}
+
+// InstHeapAxioms instantiates the heap-schematic axioms for one heap term (solvers do poorly with
+// quantifiers over array-valued variables, so the heap is never quantified).
+func (g *Gen) InstHeapAxioms(env *Env, heap string) []string {
+	var out []string
+	for _, ax := range g.Spec.Axioms {
+		hv := heapVar(ax.E)
+		if hv == "" {
+			continue
+		}
+		cp := *ax.E
+		cp.Bound = nil
+		for _, b := range ax.E.Bound {
+			if b[0] != hv {
+				cp.Bound = append(cp.Bound, b)
+			}
+		}
+		ne := env.withVars(map[string]TTerm{hv: {S: heap, Sort: "Heap"}})
+		ne.onHeap = nil
+		var t TTerm
+		if len(cp.Bound) == 0 {
+			t = ne.Tr(ax.E.Args[0])
+		} else {
+			t = ne.Tr(&cp)
+		}
+		out = append(out, "(assert "+t.S+") ; axiom "+ax.Pos+" at heap")
+	}
+	return out
 }
